@@ -93,6 +93,7 @@ func Run(r *fw.Run) {
 	r.Assume = []string{"operation arguments are valid (canonical versions, well-formed paths)", "cleanup precedes the bulk setters, as the property stipulates"}
 	modedit.Explore(r, false, modSeeds, ops, depth, checker{})
 	modedit.Explore(r, true, modedit.WorkSeeds, wops, depth+1, checker{})
+	modedit.ArgSweep(r, checker{}, r.Pick(3, 4))
 	r.Sample(modedit.Case{Work: false, SeedIdx: 6, Seed: modedit.ModSeeds[6], Hist: []modedit.Op{{Kind: "AddRetract", A: []string{"v1.1.0", "v1.1.0", "bad"}}, {Kind: "DropRetract", A: []string{"v1.1.0", "v1.1.0"}}}, Check: "state"})
 }
 
